@@ -212,3 +212,24 @@ func VerifC04NoSharing(v *verifrt.T) {
 	v.Assert(q.Get(k).AddTime() == qA && q.Get(k).DelTime() == qD, "C04.queued-delta-not-reachable-through-the-state")
 	_, _ = dA, dD
 }
+
+// VerifC04DurableLookups: the durable set answers Has/Get through a read cache. A lookup
+// between two merges (which fills the cache) must not change what the replica answers after
+// the second merge: still the point-wise maximum, still "active iff added and not older than
+// the remove".
+func VerifC04DurableLookups(v *verifrt.T) {
+	k := c04keys[0]
+	r := newDurableWith("", nil)
+	u0, u1 := c04draw(v, 0, 1), c04draw(v, 1, 1)
+	r.Merge(c04payload(u0, 1))
+	if v.Bool("lookup-between") {
+		_ = r.Has(k)
+		_ = r.Get(k)
+	}
+	r.Merge(c04payload(u1, 1))
+	v.Reach("looked-up-and-merged")
+	wantA, wantD := c04max(u0.add[0], u1.add[0]), c04max(u0.del[0], u1.del[0])
+	t := r.Get(k)
+	v.Assert(t.AddTime() == wantA && t.DelTime() == wantD, "C04.durable.lookup-does-not-freeze-the-answer")
+	v.Assert(r.Has(k) == verifrt.And(wantA != 0, wantA >= wantD), "C04.durable.active-after-cached-lookup")
+}
